@@ -260,10 +260,29 @@ func (bn *baseNode) setModTime(mtime time.Time, u avfs.UserReader) bool {
 	return true
 }
 
-// setOwner sets the owner of the node.
-func (bn *baseNode) setOwner(uid, gid int) {
-	bn.uid = uid
-	bn.gid = gid
+// setOwner sets the owner of the node as chown(2) allows it for the user u :
+// an administrator sets any user and group, the owner of the node may name its own user id
+// and set the group he belongs to or the current one, and -1 leaves a value unchanged.
+func (bn *baseNode) setOwner(uid, gid int, u avfs.UserReader, admin bool) bool {
+	if !admin {
+		if uid != -1 && (bn.uid != u.Uid() || uid != bn.uid) {
+			return false
+		}
+
+		if gid != -1 && (bn.uid != u.Uid() || gid != bn.gid && gid != u.Gid()) {
+			return false
+		}
+	}
+
+	if uid != -1 {
+		bn.uid = uid
+	}
+
+	if gid != -1 {
+		bn.gid = gid
+	}
+
+	return true
 }
 
 // Unlock unlocks the node.
